@@ -21,5 +21,12 @@ for m in [("mutants",) + tuple(x) for x in MUTANTS] + [("controls",) + tuple(x) 
         out += list(difflib.unified_diff(src.splitlines(True), dst.splitlines(True), "a/" + f, "b/" + f))
     if out:
         open(os.path.join(VERIF, folder, name + ".patch"), "w").write("".join(out))
+import glob
+keep = {m[0] for m in MUTANTS}
+for f in glob.glob(os.path.join(VERIF, "mutants", "*.patch")):
+    name = os.path.basename(f)[:-6]
+    if name not in keep and "revert-fix" not in name:
+        os.remove(f)
+        print("removed stale", name)
 print("generated", len(MUTANTS), "mutants", "OK" if ok else "WITH ERRORS")
 sys.exit(0 if ok else 1)
